@@ -11,6 +11,7 @@ import (
 	"flag"
 	"fmt"
 	"os"
+	"os/exec"
 	"path/filepath"
 	"sort"
 	"strings"
@@ -33,6 +34,7 @@ type mutant struct {
 	Edits    []edit
 	Expect   string // substring of the key of a non-discharged obligation
 	Note     string
+	Patch    string // harmless only: a unified diff under /verif (refactors/<area>.diff) applied as a whole; judged by every rule serving the property asked for
 }
 
 type mutantResult struct {
@@ -47,7 +49,10 @@ type mutantResult struct {
 }
 
 func applyEdits(repo string, edits []edit) (map[string][]byte, error) {
-	ov := map[string][]byte{}
+	return applyEditsOn(repo, edits, map[string][]byte{})
+}
+
+func applyEditsOn(repo string, edits []edit, ov map[string][]byte) (map[string][]byte, error) {
 	for _, e := range edits {
 		path := filepath.Join(repo, e.File)
 		cur, ok := ov[path]
@@ -87,9 +92,76 @@ func applyEdits(repo string, edits []edit) (map[string][]byte, error) {
 	return ov, nil
 }
 
+// overlayFromPatch applies a unified diff to copies of the files it names
+// (in a scratch directory that is removed again) and returns the patched
+// contents as an overlay. /repo is not touched.
+func overlayFromPatch(repo, patch string) (map[string][]byte, error) {
+	b, err := os.ReadFile(patch)
+	if err != nil {
+		return nil, err
+	}
+	var files []string
+	for _, ln := range strings.Split(string(b), "\n") {
+		if strings.HasPrefix(ln, "+++ b/") {
+			files = append(files, strings.TrimSpace(strings.TrimPrefix(ln, "+++ b/")))
+		}
+	}
+	if len(files) == 0 {
+		return nil, fmt.Errorf("stale: no files named in %s", patch)
+	}
+	tmp, err := os.MkdirTemp("", "zapxlint-patch-")
+	if err != nil {
+		return nil, err
+	}
+	defer os.RemoveAll(tmp)
+	for _, f := range files {
+		src, err := os.ReadFile(filepath.Join(repo, f))
+		if err != nil {
+			continue // a file the patch creates
+		}
+		os.MkdirAll(filepath.Dir(filepath.Join(tmp, f)), 0o755)
+		if err := os.WriteFile(filepath.Join(tmp, f), src, 0o644); err != nil {
+			return nil, err
+		}
+	}
+	abs, _ := filepath.Abs(patch)
+	cmd := exec.Command("git", "apply", "--unsafe-paths", "--directory="+tmp, abs)
+	cmd.Dir = tmp
+	cmd.Env = append(os.Environ(), "GIT_CEILING_DIRECTORIES=/", "GIT_DIR=/nonexistent")
+	if out, err := cmd.CombinedOutput(); err != nil {
+		// plain patch(1) as a fallback
+		c2 := exec.Command("patch", "-p1", "-s", "-i", abs)
+		c2.Dir = tmp
+		if out2, err2 := c2.CombinedOutput(); err2 != nil {
+			return nil, fmt.Errorf("stale: patch %s does not apply: %s / %s", filepath.Base(patch), strings.TrimSpace(string(out)), strings.TrimSpace(string(out2)))
+		}
+	}
+	ov := map[string][]byte{}
+	for _, f := range files {
+		nb, err := os.ReadFile(filepath.Join(tmp, f))
+		if err != nil {
+			return nil, err
+		}
+		ov[filepath.Join(repo, f)] = nb
+	}
+	return ov, nil
+}
+
+var verifDir = "/verif"
+
 func runMutant(repo string, m mutant) mutantResult {
 	res := mutantResult{ID: m.ID, Prop: m.Prop, Rule: m.Rule, Expect: m.Expect, Note: m.Note}
-	ov, err := applyEdits(repo, m.Edits)
+	var ov map[string][]byte
+	var err error
+	if m.Patch != "" {
+		ov, err = overlayFromPatch(repo, filepath.Join(verifDir, m.Patch))
+		if err == nil && len(m.Edits) > 0 {
+			// a seeded edit on top of the refactored form
+			ov, err = applyEditsOn(repo, m.Edits, ov)
+		}
+	} else {
+		ov, err = applyEdits(repo, m.Edits)
+	}
 	if err != nil {
 		res.Status = "stale"
 		res.Note = err.Error()
@@ -105,17 +177,32 @@ func runMutant(repo string, m mutant) mutantResult {
 		res.Note = err.Error()
 		return res
 	}
+	defer progRegistry.Delete(p.SSA) // or every edited program stays reachable for the life of the process
 	for _, r := range allRules() {
 		if m.Rule != "" && r.ID != m.Rule {
 			continue
 		}
-		if m.Rule == "" && !r.serves(m.Prop) {
+		if m.Rule == "" && m.Prop != "" && !r.serves(m.Prop) {
 			continue
 		}
 		if r.VectorsOnly && !cfg.Vectors {
 			continue
 		}
 		for _, o := range runRule(r, p, m.Prop) {
+			if m.Harmless && m.Patch != "" && o.Status != Discharged {
+				// a recorded known finding of the unchanged tree is not an alarm about the refactoring
+				if kf, err := loadKnown(filepath.Join(verifDir, "known_findings.txt")); err == nil {
+					known := false
+					for _, k := range kf.Known {
+						if k.Key == o.Key {
+							known = true
+						}
+					}
+					if known {
+						continue
+					}
+				}
+			}
 			if o.Status != Discharged {
 				res.Reported = append(res.Reported, string(o.Status)+" "+o.Key+" @"+o.Pos)
 			}
@@ -166,8 +253,12 @@ func runSelfTest(repo, verif, prop string) interface{} {
 	for _, m := range append(mutantTable(), harmlessTable()...) {
 		if m.Prop == prop {
 			ms = append(ms, m)
+		} else if m.Patch != "" && m.Prop == "" {
+			m.Prop = prop
+			ms = append(ms, m)
 		}
 	}
+	verifDir = verif
 	rs := runMutants(repo, ms, 6)
 	suite := map[string]string{}
 	if b, err := os.ReadFile(filepath.Join(verif, "selftest_suite_outcomes.json")); err == nil {
@@ -187,8 +278,10 @@ func cmdSelftest(args []string) int {
 	repo := fs.String("repo", "/repo", "repository root")
 	only := fs.String("only", "", "substring of mutant id / property / rule")
 	par := fs.Int("j", 6, "parallel loads")
+	vd := fs.String("verif", "/verif", "verification directory (refactoring patches)")
 	export := fs.String("export", "", "write the edited files of every (non-stale) mutant under DIR/<id>/ instead of analysing")
 	fs.Parse(args)
+	verifDir = *vd
 	if *export != "" {
 		n := 0
 		for _, m := range mutantTable() {
